@@ -234,7 +234,7 @@ def main():
         "Proof. vm_compute. reflexivity. Qed.\n")
     out = c.run_coq(files)
     ok_r, log_r = out.pop("Gen_reciprocal")
-    c.oblige("Gen_reciprocal.shipped_tables_reciprocal (the exported _ratios / _offsets of the shipped modules: reciprocal ratios, opposite offsets, offsets only on unit ratios)", ok_r, log_r[-600:])
+    c.oblige("Gen_reciprocal.shipped_tables_reciprocal (the exported _ratios / _offsets of the shipped modules: reciprocal ratios, opposite offsets, offsets only on unit ratios; what `true` means: C09_reciprocal_check_sound, C09_opposite_check_sound)", ok_r, log_r[-600:])
     if not ok_r:
         # locate the entry on the export itself
         kk = lambda u: json.dumps([u["p"], u["f"]])
